@@ -1464,7 +1464,7 @@ func simplifyLogout(p *Plan) []*Plan {
 func init() {
 	register(&Profile{
 		ID: "C18", Name: "logout", Level: "exploration",
-		Rule: "each run: 1-3 deliveries to a real ServiceProvider (trust: metadata with 1 or 2 signing certs, +encryption-only cert, pinned cert, fingerprint; MaxIssueDelay/MaxClockSkew, SP base URL, IdP entity ID drawn per run) through ValidateLogoutResponseForm / Redirect / Request(GET|POST) of a foreign-IdP LogoutResponse that starts valid and gets 0-4 defects drawn from {signature: never signed, untrusted key, encryption-only key, untrusted key naming the trusted cert, stripped, moved under a child, field/attribute/child edited after signing, second Signature, corrupted value; destination: absent, empty, ACS URL, other SP, prefix/truncation/query/slash/host variants; issuer: absent, empty, other tenant, near misses, name extended behind an XML comment; freshness: age at MaxIssueDelay -1ms/+1ms/half/x10/far/edge via delivery delay on the bubble clock, IssueInstant absent/empty/garbage, re-dated on the wire; status: absent, empty, Requester, Responder, case/suffix near misses, nested Success; other root element} plus ~10% malformed inputs (rootless, empty, non-XML, truncated XML/base64, wrong encoding for the entry point, 1-3 byte substitutions/deletions/insertions in a valid response, deflate bomb 50-300 MiB); non-trivial = a LogoutResponse document violating at most one clause of the statement (the oracle has to discriminate on exactly that clause); distinct = distinct abstract event log (entry, trust, signer, lexical form, defect labels, violated clauses, expectation, outcome)",
+		Rule: "each run: 1-3 deliveries to a real ServiceProvider (trust: metadata with 1 or 2 signing certs, +encryption-only cert, pinned cert, fingerprint; MaxIssueDelay/MaxClockSkew, SP base URL, IdP entity ID drawn per run) through ValidateLogoutResponseForm / Redirect / Request(GET|POST) of a foreign-IdP LogoutResponse that starts valid and gets 0-4 defects drawn from {signature: never signed, untrusted key, encryption-only key, untrusted key naming the trusted cert, stripped, moved under a child, field/attribute/child edited after signing, second Signature, corrupted value; destination: absent, empty, ACS URL, other SP, prefix/truncation/query/slash/host variants; issuer: absent, empty, other tenant, near misses, name extended behind an XML comment; freshness: age at MaxIssueDelay -1ms/+1ms/half/x10/far/edge via delivery delay on the bubble clock, IssueInstant absent/empty/garbage, re-dated on the wire; status: absent, empty, Requester, Responder, case/suffix near misses, nested Success; other root element} plus ~10% malformed inputs (rootless, empty, non-XML, truncated XML/base64, wrong encoding for the entry point, 1-3 byte substitutions/deletions/insertions in a valid response, deflate bomb 50-300 MiB); non-trivial = a LogoutResponse document violating at most one clause of the statement (the oracle has to discriminate on exactly that clause); distinct = distinct abstract event log (entry, trust, signer, lexical form, defect labels, violated clauses, expectation, outcome); KeyInfo may carry further certificates beside the signer's (the trusted one beside an untrusted signer's, a stranger's beside the trusted signer's); the host time zone differs per run",
 		Gen:  genLogout, Exec: execLogout, Simplify: simplifyLogout,
 		RunsQuick: 6000, RunsThorough: 600000,
 		Assumptions: []string{
